@@ -133,7 +133,7 @@ fn execute(case: &BCase) -> Obs {
                     sim.poll(*k);
                 }
                 BOp::Settle => {
-                    sim.settle();
+                    crate::util::settle(&mut sim);
                 }
                 BOp::Advance { ms } => {
                     sim.advance(Duration::from_millis(*ms)).await;
@@ -148,7 +148,7 @@ fn execute(case: &BCase) -> Obs {
                 _ => {}
             }
         }
-        sim.settle();
+        crate::util::settle(&mut sim);
         Obs {
             remotes: sim
                 .remotes
